@@ -130,8 +130,9 @@ func Harness_Next(n int, dealer int, layout int, street int) {
 	posBefore := st.CurrentDeckPosition
 	hole := make([][]string, n)
 	for i, p := range gs.Players {
-		hole[i] = p.HoleCards
+		hole[i] = append([]string{}, p.HoleCards...) // a copy: "never change" must not compare a slice with itself
 	}
+	deckBefore := append([]string{}, gs.Meta.Deck...)
 	err := g.Next()
 	vAssert(err == nil, "C06.next-succeeds")
 	// chips: wagers move to the pot, stacks untouched
@@ -142,6 +143,11 @@ func Harness_Next(n int, dealer int, layout int, street int) {
 	}
 	vhAccounts(gs, "@next")
 	deck := gs.Meta.Deck
+	sameDeck := len(deck) == len(deckBefore)
+	for k := 0; sameDeck && k < len(deck); k++ {
+		sameDeck = deck[k] == deckBefore[k]
+	}
+	vAssert(sameDeck, "C14.deck-unchanged-by-play")
 	movable := pre.movable
 	if st.CurrentEvent == "GameClosed" {
 		vAssert(gs.Result != nil, "C06.closed-hand-has-result")
